@@ -13,6 +13,7 @@ PATTERNS = [
     "(h (f {1} {2}) (f {2} {1}))", "(h (f {1} {2}) (v {2}))", "(g (h ?a ?b))", "(h (g ?a) ?a)", "(h ?a (g ?a))",
     "(sum ?a {1} {2} (f {1} {2}))", "(sum ?a {1} {2} (f {2} {1}))", "(let {1} (f {1} {2}) ?b)", "(k (v {1}) {2} ?b)",
     "(lam {1} (lam {2} ?a))", "(h (lam {1} ?a) ?b)", "(h ?b (lam {1} ?a))", "(g (lam {1} (f {1} {2})))",
+    "(h (v {1}) (p {2} {1}))", "(h (v {1}) (p {1} {2}))", "(h (p {1} {2}) (p {1} {3}))", "(h (p {1} {2}) (p {3} {1}))",
     "(w ?a {1})", "(w (f {1} {2}) {1})", "(w (f {1} {2}) {2})", "(wb {1} ?a {2})", "(wb {1} (f {1} {2}) {2})",
     "(h (f3 {1} {2} {3}) ?a)", "(g (f3 {1} {2} {3}))", "(h ?a ?b) ", "(h (h ?a ?b) ?c)", "(h ?a (h ?b ?c))",
 ]
